@@ -17,8 +17,9 @@ type CachedEntityBase[SnapT dag.Snapshot, OpT dag.Operation] struct {
 	entityUpdated   func(id entity.Id) error
 	getUserIdentity getUserIdentityFunc
 
-	mu     sync.RWMutex
-	entity dag.Interface[SnapT, OpT]
+	mu      sync.RWMutex
+	removed bool
+	entity  dag.Interface[SnapT, OpT]
 }
 
 func (e *CachedEntityBase[SnapT, OpT]) Id() entity.Id {
@@ -68,6 +69,10 @@ func (e *CachedEntityBase[SnapT, OpT]) Validate() error {
 
 func (e *CachedEntityBase[SnapT, OpT]) Commit() error {
 	e.mu.Lock()
+	if e.removed {
+		e.mu.Unlock()
+		return ErrEntityRemoved
+	}
 	err := e.entity.Commit(e.repo)
 	if err != nil {
 		e.mu.Unlock()
@@ -79,6 +84,10 @@ func (e *CachedEntityBase[SnapT, OpT]) Commit() error {
 
 func (e *CachedEntityBase[SnapT, OpT]) CommitAsNeeded() error {
 	e.mu.Lock()
+	if e.removed {
+		e.mu.Unlock()
+		return ErrEntityRemoved
+	}
 	err := e.entity.CommitAsNeeded(e.repo)
 	if err != nil {
 		e.mu.Unlock()
@@ -96,6 +105,13 @@ func (e *CachedEntityBase[SnapT, OpT]) NeedCommit() bool {
 
 func (e *CachedEntityBase[SnapT, OpT]) Lock() {
 	e.mu.Lock()
+}
+
+func (e *CachedEntityBase[SnapT, OpT]) setRemoved(removed bool) {
+	// waits for a commit in progress: its references are deleted by the removal that follows
+	e.mu.Lock()
+	e.removed = removed
+	e.mu.Unlock()
 }
 
 func (e *CachedEntityBase[SnapT, OpT]) CreateLamportTime() lamport.Time {
